@@ -13,7 +13,7 @@ import numpy as np
 import felupe as fem
 
 from .. import gen, jobsim, world
-from ..kernel import Discard, EventLog, InjectedFault, SimCallbackError, SimDiskError, Violation, close_exact_twin
+from ..kernel import Discard, EventLog, InjectedFault, SimCallbackError, SimDiskError, Violation, close_exact_twin, pick
 from .C15 import defgrad
 
 PROP = "C20"
@@ -271,7 +271,7 @@ def run_job(doc, log):
         point_data["Displacement"] = my_disp
     cell_data = {"Mean J": my_cell} if (opts.get("custom_cell") or any(f["where"] == "cell" for f in data_fault)) else None
     # an empty dictionary instead of None (seed-derived, no extra generator draw)
-    if dd["seed"] % 3 == 0:
+    if pick(dd["seed"], "empty-data-dicts", 3) == 0:
         point_data = {} if point_data is None else point_data
         cell_data = {} if cell_data is None else cell_data
         log.count("empty-data-dicts")
